@@ -548,6 +548,8 @@ class _DiffFromAlignmentBuilder:
     self.changes: List[DiffOperation] = []
     self.new_shared_values: List[Any] = []
     self.alignment: DiffAlignment = alignment
+    # ids of aligned tuples in `new` that must be replaced as a whole.
+    self.replaced_tuple_ids = set()
     self.paths_by_old_id = daglish_legacy.collect_paths_by_id(
         alignment.old, memoizable_only=True)
     if not (
@@ -593,7 +595,19 @@ class _DiffFromAlignmentBuilder:
     # `Reference`s where appropriate.
     diff_value = yield
 
-    if not self.alignment.is_new_value_aligned(new_value):  # New object.
+    is_aligned = self.alignment.is_new_value_aligned(new_value)
+    if is_aligned and isinstance(new_value, tuple):
+      # Tuples are immutable: an aligned tuple whose elements changed can't be
+      # modified in place, so it is replaced as a whole (like a new object).
+      old_value = self.alignment.old_from_new(new_value)
+      if not all(
+          self.aligned_or_equal(old_child, new_child)
+          for old_child, new_child in zip(old_value, new_value)
+      ):
+        self.replaced_tuple_ids.add(id(new_value))
+        is_aligned = False
+
+    if not is_aligned:  # New object.
       if len(new_paths) == 1 or not daglish.is_memoizable(new_value):
         return diff_value
       else:
@@ -699,7 +713,8 @@ class _DiffFromAlignmentBuilder:
     """
     if daglish.is_memoizable(new_value) or daglish.is_memoizable(old_value):
       return (self.alignment.is_old_value_aligned(old_value) and
-              self.alignment.new_from_old(old_value) is new_value)
+              self.alignment.new_from_old(old_value) is new_value and
+              id(new_value) not in self.replaced_tuple_ids)
     elif old_value is new_value:
       return True
     elif type(new_value) is not type(old_value):
